@@ -86,6 +86,13 @@ def instances():
             "datetime.time(1, 2, tzinfo=pytz.timezone('Etc/GMT-5'))")
     except ImportError:
         pass
+    try:
+        import pytz  # noqa
+        # the same tzinfo object (pytz memoises FixedOffset) twice in one value; its printer returns a plain str
+        add('list', "[datetime.datetime(2020, 1, 2, tzinfo=pytz.FixedOffset(90)), datetime.datetime(2021, 3, 4, tzinfo=pytz.FixedOffset(90))]",
+            "[pytz.FixedOffset(30), pytz.FixedOffset(30), datetime.time(1, tzinfo=pytz.FixedOffset(30))]")
+    except ImportError:
+        pass
     add('ordered', 'collections.OrderedDict()', 'collections.OrderedDict([(1, 2), (3, 4)])',
         "collections.OrderedDict([('b', [1]), ('a', {})])")
     add('defaultdict', 'collections.defaultdict(int, {1: 2})', 'collections.defaultdict(list)',
@@ -93,6 +100,9 @@ def instances():
     add('deque', 'collections.deque()', 'collections.deque([1, 2])', 'collections.deque([], maxlen=3)',
         'collections.deque([1, 2, 3], maxlen=3)', 'collections.deque([1], maxlen=0)', "collections.deque(['a', (1,)], 10**9)")
     add('counter', 'collections.Counter()', "collections.Counter('aab')", 'collections.Counter({1: -1, 2: 0})')
+    add('chainmap', "collections.ChainMap({}, {'a': 1})", "collections.ChainMap({}, {}, {1: 2})",
+        "collections.ChainMap({'a': 1}).new_child()")
+    add('counter', "collections.Counter({'a': 1, 'b': 'many'})", "collections.Counter({'x': None, 'y': 2.5})")
     add('chainmap', 'collections.ChainMap()', 'collections.ChainMap({})', 'collections.ChainMap({1: 2}, {3: 4})',
         'collections.ChainMap({}, {})', 'collections.ChainMap({1: 2})')
     add('mappingproxy', 'types.MappingProxyType({})', 'types.MappingProxyType({1: 2})',
